@@ -54,6 +54,7 @@ type PRes struct {
 	LastMod     bool        `json:"lastmod,omitempty"`
 	Status      int         `json:"status,omitempty"`
 	RangeMode   string      `json:"range,omitempty"`         // "ignore" (default) | "honor" | "416"
+	SizeStep    int         `json:"size_step,omitempty"` // every new version of the representation is this much longer
 	Hdr416      string      `json:"hdr416,omitempty"`        // cache headers of a 416 answer: "" (the resource's own) | "none" | "no-store" | "max-age=3600"
 	CondMode    string      `json:"cond,omitempty"`          // "304" (default: proper revalidation) | "200" | "404" | "500"
 	EvictOnCond bool        `json:"evict_on_cond,omitempty"` // the stored entries are deleted while a conditional request for this resource is at the origin
@@ -185,6 +186,7 @@ type proxyWorld struct {
 	cond503     map[int]bool
 	dialN       int
 	errLog      []string
+	netNotes    []string
 	srvLog      []string
 	caPool      *x509.CertPool
 	ca          certs.CertAuthority
@@ -300,6 +302,16 @@ func (w *proxyWorld) originHandler(rw http.ResponseWriter, req *http.Request) {
 	defer leave()
 
 	reqBody, _ := io.ReadAll(req.Body)
+	if len(reqBody) > 0 {
+		// The last body bytes woke this task in the middle of a step. Answer in a later step, when
+		// every goroutine that is not a task has settled: the proxy's transport still has to finish
+		// its request write (it probes the inbound body once more afterwards), and if the proxy's
+		// handler starts answering its client before that, net/http's server closes the inbound
+		// body under the transport, which then drops the upstream connection mid-response. On a real
+		// network that takes a goroutine stalled for longer than a round trip; here it took only CPU
+		// load, and no replay reproduced it.
+		w.sim.Yield("harness:origin-got-body")
+	}
 	now := time.Now()
 	e := &OLog{Seq: w.nextSeq(), Step: w.sim.Steps, T: now, Method: req.Method, Host: req.Host, URI: req.RequestURI, Hdr: req.Header.Clone(), BodyLen: len(reqBody), BodyHash: hashBytes(reqBody)}
 	for _, k := range []string{"If-None-Match", "If-Match", "If-Modified-Since", "If-Unmodified-Since"} {
@@ -403,7 +415,7 @@ func (w *proxyWorld) originHandler(rw http.ResponseWriter, req *http.Request) {
 	if status == 0 {
 		status = 200
 	}
-	full := body(rid, v, r.Size)
+	full := body(rid, v, r.Size+v*r.SizeStep)
 	out := full
 
 	if r.Redirect > 0 {
@@ -1073,6 +1085,7 @@ func runProxyPlan(t *testing.T, planAny any, ctl Ctl) *Result {
 // execProxyPlan runs one world and returns it with the recorded exchanges, unjudged.
 func execProxyPlan(t *testing.T, p *ProxyPlan, ctl Ctl) (*proxyWorld, *Result) {
 	res := newResult()
+	takeSimnetNotes()
 	dir := newRunDir()
 	os.Chdir(dir)
 	os.MkdirAll(filepath.Join(dir, "var"), 0o755)
@@ -1193,6 +1206,7 @@ func execProxyPlan(t *testing.T, p *ProxyPlan, ctl Ctl) (*proxyWorld, *Result) {
 			}
 		}
 	})
+	w.netNotes = takeSimnetNotes()
 	if res.Infra != "" {
 		return w, res
 	}
